@@ -213,6 +213,18 @@ int main(int argc, char** argv) {
                         viol, a.result().info.primal_inf, a.result().info.primal_rel_inf);
         else std::printf("F18: ok (status %d)\n", (int) s);
     }
+    if (which == "F19") {
+        // dense::LDLTNoPivot::solve / solveInPlace with a multi-column right-hand side: `dst.array() /= vectorD().array()` divides an
+        // n x k array by an n x 1 one.  Build with -DNDEBUG (with assertions on, Eigen aborts on the size mismatch instead).
+        M K(3, 3); K << 4, 1, 2, 1, 3, 0, 2, 0, -5;
+        M B(3, 3); B << 1, 2, 3, 4, 5, 6, 7, 8, 10;
+        dense::LDLTNoPivot<M, Eigen::Lower> f(K);
+        M X = f.solve(B);
+        double r = (K * X - B).cwiseAbs().maxCoeff();
+        double r1 = (K * f.solve(B.col(2)) - B.col(2)).cwiseAbs().maxCoeff();
+        if (!(r < 1e-9)) std::printf("F19: DEFECT LDLTNoPivot::solve(3x3 right-hand side): |K X - B|_inf = %g (column by column: %g)\n", r, r1);
+        else std::printf("F19: ok (%g)\n", r);
+    }
     if (which == "F9") {
         // sparse: update(A') with the same nnz but a different pattern is accepted; run under ASan
         SparseSolver<double, int> a;
